@@ -111,6 +111,15 @@ def strategy(tier):
                                'j': st.integers(0, 5), 'args': args,
                                'dup': st.booleans(),
                                'raises': st.booleans()}),
+        # a frame whose payload is not the list that an event / an
+        # acknowledgement carries (a string, an object, nothing): it names
+        # no event and acknowledges nothing - no handler, no ACK, and an
+        # outstanding callback stays outstanding
+        st.fixed_dictionaries({'op': st.just('bad_payload'), 'ns': nsi,
+                               'what': st.sampled_from(
+                                   ['ev_str', 'ev_obj', 'ack_str', 'ack_obj',
+                                    'ack_none', 'ev_empty']),
+                               'j': st.integers(0, 5)}),
         st.fixed_dictionaries({'op': st.just('call'), 'ns': nsi,
                                'timeout': st.sampled_from([0.5, 2, 60]),
                                'data': S.payload_st(max_leaves=3),
@@ -584,6 +593,31 @@ def _run(case, h):
             check_quiet(step, 'ack %s id=%r' % (kind, pid))
             if h.take_msgs():
                 raise Violation('ack-caused-traffic', '')
+        elif k == 'bad_payload':
+            what = op['what']
+            nlog = len(log)
+            prefix = '' if ns == '/' else ns + ','
+            if what.startswith('ev'):
+                body = {'ev_str': '"abc"', 'ev_obj': '{"a":1,"b":2}',
+                        'ev_empty': '[]'}[what]
+                h.deliver('2' + prefix + '7' + body)
+            else:
+                own = sorted(outstanding[ns])
+                pid = own[op['j'] % len(own)] if own else 1
+                body = {'ack_str': '"abc"', 'ack_obj': '{"a":1,"b":2}',
+                        'ack_none': ''}[what]
+                h.deliver('3' + prefix + str(pid) + body)
+            h.swallowed[:] = []
+            h.bg_errors[:] = []
+            if len(log) != nlog:
+                raise Violation('invocation-count', 'a frame whose payload '
+                                'is not a list (%s) invoked %r'
+                                % (what, log[nlog:]))
+            if h.take_msgs():
+                raise Violation('ack-for-undecodable-event', what)
+            labels['payload_not_a_list'] = True
+            labels['nontrivial'] = True
+            check_quiet(step, 'payload that is not a list: ' + what)
         elif k == 'call':
             dirs.add('out')
             state = {'id': None, 'have': False, 'result': None}
